@@ -18,6 +18,19 @@ every answer of the stream is checked.  Streams mix shapes that share the same p
 alternate minimise / maximise, repeat matrices, reuse one caller-side buffer object, and walk through many sizes.
 A violation is shrunk (call alone -> one predecessor + call -> whole prefix), each candidate again in a fresh
 process, so that the recorded case replays deterministically.
+
+Beyond the small scope (round 2):
+  * size ladder - matrices with max(rows, cols) in 31..34, 63..66, 127..140, 255..260, 511..530, 600, 1000+ (square, nearly
+    square, strongly rectangular; min and max).  The verdict comes from oracles.assignment.optimum_certified: the exact
+    optimum of the side asked for, proven by an LP-duality certificate (integers) that is usually derived from the returned
+    matching itself (no negative cycle in its exchange graph) and otherwise from an independent search; planted-optimum
+    matrices (u[i] + v[j] + slack, slack 0 on a hidden permutation) are part of the ladder families;
+  * one-object histories - ONE list-of-lists object handed to every call of a stream and edited in place between calls
+    (cells, rows/columns appended or removed, rows/columns relabelled), every answer judged for the matrix as it is then;
+    ladder-size histories that keep max(rows, cols) fixed while the shape changes;
+  * fine-grained values - integer + k*2^-36, k*2^-40, gaps of 2^-29/2^-30/2^-31 around 1e-9, exhaustively on 2x2..3x3
+    and in every random / history stream, judged exactly (integers scaled by the common power-of-two denominator,
+    which is Fraction arithmetic without the gcd).
 """
 from __future__ import annotations
 
@@ -34,7 +47,9 @@ from vf.core import Ctx, use_repo
 
 LEVEL = "exploration"
 PID = "C10"
-CALL_TIMEOUT_S = 20
+CALL_TIMEOUT_S = 20  # CPU seconds of the calling process for one call up to 30x30; see call_budget
+LADDER_FROM = 31  # max(rows, cols) from which the one-sided certified oracle decides instead of minmax()
+BIG_CASE_CELLS = 40000  # violations on larger matrices are recorded as (generator, seed, index) instead of the literal matrix
 
 V5 = [-2, -1, 0, 1, 2]
 V3 = [-1, 0, 1]
@@ -64,13 +79,21 @@ def _on_alarm(signum, frame):
     raise _Timeout()
 
 
+def call_budget(n):
+    """CPU-time allowance of one call: 20 s, plus 1 s per million cells*size for the O(n^3) ladder sizes (the unchanged
+    algorithm needs about a tenth of that).  CPU time, not wall time: a loaded machine must not look like a hang."""
+    return CALL_TIMEOUT_S + (n ** 3) // 1000000
+
+
 # ====================================================================== contract
 def _is_index(x):
     return isinstance(x, int) and not isinstance(x, bool)
 
 
-def evaluate_solve(K, den, mode, res, lo, hi):
-    """Contract of one solve_hungarian call. K/den: exact matrix; res: the Result. -> [(obligation, detail)], chosen"""
+def evaluate_solve(K, den, mode, res, lo, hi, bound=None):
+    """Contract of one solve_hungarian call. K/den: exact matrix; res: the Result. -> [(obligation, detail)], chosen
+    lo/hi: exact minimum/maximum over all matchings; for ladder sizes both are None and bound(sense, solution)
+    supplies the proven optimum of the one side that was asked for."""
     from oracles.assignment import exact_number
     rows, cols = len(K), len(K[0])
     bad = []
@@ -93,8 +116,14 @@ def evaluate_solve(K, den, mode, res, lo, hi):
         bad.append((O_OBJ, f"objective {getattr(res, 'objective', None)!r} but the chosen entries of {list(sol)} sum to "
                            f"{_show(chosen, den)}"))
     if valid:
-        if chosen < lo or chosen > hi:
-            raise RuntimeError(f"oracle defect: a valid matching with total {chosen} outside [{lo},{hi}] for {K}")
+        if bound is not None:
+            if mode == "max":
+                hi = bound("max", list(sol))
+            else:
+                lo = bound("min", list(sol))
+        if (lo is not None and chosen < lo) or (hi is not None and chosen > hi):
+            raise RuntimeError(f"oracle defect: a valid matching with total {chosen} outside [{lo},{hi}] for "
+                               f"{K if len(K) <= 8 else str(len(K)) + ' rows'}")
         if mode == "max":
             if chosen != hi:
                 bad.append((O_MAX, f"matching {list(sol)} totals {_show(chosen, den)}, the maximum is {_show(hi, den)}"))
@@ -127,6 +156,24 @@ def _shape_obj(matrix, form):
     return [list(r) for r in matrix]
 
 
+def _sync(arg, matrix):
+    """Make the caller-side object `arg` (a list of row lists that lives as long as the stream) equal to `matrix` by
+    editing it in place: rows and cells are appended / removed / overwritten, surviving row objects keep their identity."""
+    while len(arg) > len(matrix):
+        arg.pop()
+    while len(arg) < len(matrix):
+        arg.append([])
+    for row, src in zip(arg, matrix):
+        if len(row) > len(src):
+            del row[len(src):]
+        for j, x in enumerate(src):
+            if j >= len(row):
+                row.append(x)
+            elif row[j] != x or type(row[j]) is not type(x):
+                row[j] = x
+    return arg
+
+
 def _digest(matrix, mode):
     return hashlib.sha1(repr((matrix, mode)).encode()).hexdigest()[:16]
 
@@ -147,8 +194,9 @@ def expand(spec):
     rng = random.Random(spec["seed"])
     out = MAKERS[spec["maker"]](rng, *spec["args"])
     out["exh_spaces"] = spec.get("exh_spaces", [])
-    if "upto" in spec:
-        out["upto"] = spec["upto"]
+    for k in ("upto", "only"):
+        if k in spec:
+            out[k] = spec[k]
     return out
 
 
@@ -202,29 +250,43 @@ def run_stream(spec):
     Returns {"n": evaluations, "bulk": distinct non-trivial cases counted by construction (exhaustive streams),
              "keys": digests of non-trivial cases (list streams), "viol": [(op_index, obligation, detail)], "sample": op}
     """
-    from oracles.assignment import exact_scale, minmax
+    from oracles.assignment import choice_matters, exact_scale, minmax, optimum_certified
     from solvor.hungarian import solve_hungarian
     from solvor.utils.helpers import assignment_cost
 
     spec = expand(spec)
-    shared = bool(spec.get("shared"))
+    shared = spec.get("shared") or False  # False | True: one buffer per shape, overwritten | "one": one object, edited
+    the_object = []
     exh = spec["kind"] in ("exh", "ac_exh")
     exh_spaces = {tuple(k): [frozenset(v) for v in vs] for k, vs in spec.get("exh_spaces", [])}
     buffers = {}
-    out = {"n": 0, "bulk": 0, "keys": set(), "viol": [], "sample": None, "timeouts": 0}
-    signal.signal(signal.SIGALRM, _on_alarm)
+    out = {"n": 0, "bulk": 0, "keys": set(), "viol": [], "sample": None, "timeouts": 0, "ladder": {}, "by_hint": 0,
+           "by_search": 0}
+    signal.signal(signal.SIGVTALRM, _on_alarm)
     last_matrix, last_scaled = None, None
     ops_iter = _iter_ops(spec)
     if spec.get("upto") is not None:
         ops_iter = itertools.islice(ops_iter, spec["upto"])
+    only = spec.get("only")  # replay of one call of a generated stream as an isolated call
     for idx, op in enumerate(ops_iter):
+        if only is not None and idx != only:
+            continue
         matrix = op[1]
         if matrix is last_matrix:
-            K, den, lo, hi = last_scaled
+            K, den, lo, hi, proven = last_scaled
         else:
             K, den = exact_scale(matrix)
-            lo, hi = minmax(K) if (K and K[0]) else (0, 0)
-            last_matrix, last_scaled = matrix, (K, den, lo, hi)
+            proven = None
+            if K and K[0] and (4 * max(len(K), len(K[0])) + 4) * max(abs(x) for row in K for x in row) >= 2 ** 53:
+                # potentials stay within 2n * max|entry|, slacks within (4n+1) * max|entry|, all on the grid 1/den
+                raise RuntimeError(f"generator defect: float arithmetic is not guaranteed exact on this matrix (den 2^{den.bit_length() - 1})")
+            if not (K and K[0]):
+                lo, hi = 0, 0
+            elif max(len(K), len(K[0])) >= LADDER_FROM:
+                lo, hi, proven = None, None, {}  # decided per call, one side, with the answer as a hint
+            else:
+                lo, hi = minmax(K)
+            last_matrix, last_scaled = matrix, (K, den, lo, hi, proven)
         if op[0] == "ac":
             assignment = op[2]
             out["n"] += 1
@@ -247,7 +309,9 @@ def run_stream(spec):
         mode, form = op[2], op[3]
         rows = len(matrix)
         cols = len(matrix[0]) if rows else 0
-        if shared and rows and cols:
+        if shared == "one":
+            arg = _sync(the_object, matrix)
+        elif shared and rows and cols:
             arg = buffers.get((rows, cols))
             if arg is None:
                 arg = buffers[(rows, cols)] = [[0] * cols for _ in range(rows)]
@@ -256,21 +320,22 @@ def run_stream(spec):
         else:
             arg = _shape_obj(matrix, form)
         out["n"] += 1
-        signal.setitimer(signal.ITIMER_REAL, CALL_TIMEOUT_S)
+        budget = call_budget(max(rows, cols))
+        signal.setitimer(signal.ITIMER_VIRTUAL, budget)
         try:
             if mode == "default":
                 res = solve_hungarian(arg)
             else:
                 res = solve_hungarian(arg, minimize=(mode == "min"))
-            signal.setitimer(signal.ITIMER_REAL, 0)
+            signal.setitimer(signal.ITIMER_VIRTUAL, 0)
         except _Timeout:
-            out["viol"].append((idx, O_RET, f"no result after {CALL_TIMEOUT_S} s"))
+            out["viol"].append((idx, O_RET, f"no result after {budget} s of CPU time"))
             out["timeouts"] += 1
             if out["timeouts"] >= 2:
                 break
             continue
         except Exception as e:  # noqa
-            signal.setitimer(signal.ITIMER_REAL, 0)
+            signal.setitimer(signal.ITIMER_VIRTUAL, 0)
             out["viol"].append((idx, O_RET, f"raised {type(e).__name__}: {e}"))
             continue
         if rows == 0 or cols == 0:
@@ -278,7 +343,14 @@ def run_stream(spec):
             if not isinstance(sol, (list, tuple)) or any(x != -1 for x in sol) or getattr(res, "objective", None) != 0:
                 out["viol"].append((idx, O_EMPTY, f"empty matrix: solution {sol!r}, objective {getattr(res, 'objective', None)!r}"))
             continue
-        bad, chosen = evaluate_solve(K, den, mode, res, lo, hi)
+        bound = None
+        if proven is not None:
+            def bound(sense, sol, K=K, proven=proven):
+                if sense not in proven:
+                    proven[sense], how = optimum_certified(K, sense, sol)
+                    out["by_hint" if how == "hint" else "by_search"] += 1
+                return proven[sense]
+        bad, chosen = evaluate_solve(K, den, mode, res, lo, hi, bound)
         for o, d in bad:
             out["viol"].append((idx, o, d))
         if chosen is not None:
@@ -291,6 +363,17 @@ def run_stream(spec):
                                                        f"{_show(chosen, den)}"))
             except Exception as e:  # noqa
                 out["viol"].append((idx, O_AC_SOL, f"raised {type(e).__name__}: {e}"))
+        if proven is not None:  # ladder sizes
+            n = max(rows, cols)
+            out["ladder"][n] = out["ladder"].get(n, 0) + 1
+            if choice_matters(K):
+                out["keys"].add(_digest(matrix, "max" if mode == "max" else "min"))
+                if out["sample"] is None and chosen is not None:
+                    side = "max" if mode == "max" else "min"
+                    out["sample"] = {"shape": [rows, cols], "family": op[4] if len(op) > 4 else None, "mode": mode,
+                                     "objective": res.objective, "iterations": getattr(res, "iterations", None),
+                                     "proven_" + side: _show(proven[side], den) if side in proven else None}
+            continue
         if lo != hi:  # the choice of matching matters
             if exh:
                 out["bulk"] += 1
@@ -299,7 +382,7 @@ def run_stream(spec):
         if out["sample"] is None and chosen is not None and lo != hi and rows > 1 and cols > 1:
             out["sample"] = {"matrix": matrix, "mode": mode, "solution": list(res.solution), "objective": res.objective,
                              "min": _show(lo, den), "max": _show(hi, den)}
-    signal.setitimer(signal.ITIMER_REAL, 0)
+    signal.setitimer(signal.ITIMER_VIRTUAL, 0)
     return out
 
 
@@ -340,11 +423,18 @@ def shrink(spec, idx, obligation, deadline):
     """Smallest history that still violates, each candidate run in a fresh process: the call alone, one earlier call +
     the call, the original stream cut after the call.  -> (case for replay, how it reproduces)"""
     import time
+    orig = spec
     spec = expand(spec)
     prefix = materialize(spec, idx + 1)
-    shared = bool(spec.get("shared"))
+    shared = spec.get("shared") or False
     target = prefix[-1]
     if _reproduces({"kind": "list", "ops": [target], "shared": shared}, 0, obligation):
+        cells = len(target[1]) * len(target[1][0]) if target[1] else 0
+        if orig["kind"] == "gen" and cells > BIG_CASE_CELLS:  # keep the replay file small: generator + seed + index
+            case = {"spec": {k: v for k, v in orig.items() if k != "exh_spaces"}}
+            case["spec"]["only"] = idx
+            return case, (f"reproduces as an isolated call in a fresh process; the {len(target[1])}x{len(target[1][0])} matrix is "
+                          f"call {idx} of the seeded generator recorded in the case")
         return {"ops": [target], "shared": shared}, "reproduces as an isolated call in a fresh process"
     for j in range(idx - 1, max(-1, idx - 60), -1):
         if time.time() > deadline:
@@ -379,7 +469,7 @@ def stream_worker(spec):
         case, how = shrink(spec, idx, obligation, deadline)
         viol.append((obligation, case, f"{detail} [{how}]"))
     return {"n": out["n"], "bulk": out["bulk"], "keys": sorted(out["keys"]), "viol": viol, "n_viol": len(out["viol"]),
-            "sample": out["sample"]}
+            "sample": out["sample"], "ladder": out["ladder"], "by_hint": out["by_hint"], "by_search": out["by_search"]}
 
 
 # ====================================================================== generators
@@ -392,7 +482,11 @@ def _dy(k, den, as_float=None, rng=None):
 
 FAMILIES = ["small", "binary", "negbinary", "ternary", "const", "additive", "duprows", "dupcols", "neg", "pos", "poslarge",
             "neglarge", "dyadic8", "dyadic1024", "mixedtype", "rowscale", "colscale", "product", "offset", "sparsebig",
-            "diagtrap", "widerange"]
+            "diagtrap", "widerange", "pos100", "lexi36", "tiny40", "gap", "near1e-9", "planted", "plantedties"]
+# fine-grained families: every value is a dyadic rational m * 2^-40 with |m| < 2^45, so are all sums/differences the
+# algorithm forms (potentials stay below 2^11 in magnitude up to the ladder sizes used): float arithmetic is exact
+FINE = ["lexi36", "tiny40", "gap", "near1e-9"]
+P36, P40 = 2.0 ** -36, 2.0 ** -40
 
 
 def gen_matrix(rng, r, c, fam):
@@ -466,7 +560,74 @@ def gen_matrix(rng, r, c, fam):
         return m
     if fam == "widerange":
         return [[rng.choice([-1, 1]) * 2.0 ** rng.randint(-6, 18) for _ in C] for _ in R]
+    if fam == "pos100":
+        return [[rng.randint(1, 100) for _ in C] for _ in R]
+    if fam == "lexi36":  # a coarse primary cost, ties broken by a secondary cost 2^-36 times smaller
+        top = rng.choice([0, 1, 3])
+        return [[rng.randint(0, top) + rng.randint(0, 7) * P36 for _ in C] for _ in R]
+    if fam == "tiny40":  # everything lives on a 2^-40 grid (about 1e-12 .. 1e-9)
+        return [[rng.randint(0, 1000) * P40 for _ in C] for _ in R]
+    if fam == "gap":  # integers (or one constant) disturbed by a few units of 2^-e
+        g = 2.0 ** -rng.choice([20, 26, 29, 30, 31, 36, 40])
+        span = rng.choice([0, 0, 1, 2])
+        return [[rng.randint(-span, span) + rng.choice([-1, 0, 0, 0, 1, 2]) * g for _ in C] for _ in R]
+    if fam == "near1e-9":  # gaps just below and just above 1e-9 (2^-30 = 9.3e-10, 2^-29 = 1.9e-9), either sign
+        vals = [0.0, 2.0 ** -31, 2.0 ** -30, 2.0 ** -30 + P40, 2.0 ** -29 - P40, 2.0 ** -29, 2.0 ** -28]
+        base = rng.choice([0, 0, 1, -5])
+        return [[base + rng.choice([1, -1]) * rng.choice(vals) for _ in C] for _ in R]
+    if fam in ("planted", "plantedties"):
+        # optimum known by construction: u[i] + v[j] + slack, slack == 0 on a hidden matching (LP duality); built for
+        # "rows <= cols, minimise" (v <= 0, v == 0 on unused columns), then transposed / negated
+        a, b = min(r, c), max(r, c)
+        cols = rng.sample(range(b), a)
+        u = [rng.randint(-30, 30) for _ in range(a)]
+        v = [0] * b
+        for j in cols:
+            v[j] = -rng.randint(0, 30)
+        slack = [0, 0, 1, 2] if fam == "plantedties" else [1, 2, 3, 5, 9]
+        m = [[u[i] + v[j] + (0 if cols[i] == j else rng.choice(slack)) for j in range(b)] for i in range(a)]
+        if r > c:
+            m = [list(col) for col in zip(*m)]
+        if rng.random() < 0.5:
+            m = [[-x for x in row] for row in m]
+        return m
     raise ValueError(fam)
+
+
+def edit_matrix(rng, m, hi):
+    """A copy of m after one small edit of the kind a caller does to a matrix it keeps around."""
+    m = [list(row) for row in m]
+    r, c = len(m), len(m[0])
+    vals = [x for row in m for x in row]
+    fine = max(abs(x) for x in vals) <= 8  # 2^-36 steps only where float arithmetic stays exact (see exactness guard)
+    k = rng.random()
+    if k < 0.35:  # a few cells
+        for _ in range(rng.randint(1, 3)):
+            i, j = rng.randrange(r), rng.randrange(c)
+            x = m[i][j]
+            m[i][j] = rng.choice([x + 1, x - 1, x + P36 if fine else x + 2, x - 2.0 ** -30 if fine else x - 2, -x, rng.choice(vals), 0])
+    elif k < 0.45 and r > 1:  # relabel rows
+        i, j = rng.sample(range(r), 2)
+        m[i], m[j] = m[j], m[i]
+    elif k < 0.55 and c > 1:  # relabel columns
+        i, j = rng.sample(range(c), 2)
+        for row in m:
+            row[i], row[j] = row[j], row[i]
+    elif k < 0.67 and r < hi:  # one more row
+        m.insert(rng.randint(0, r), [rng.choice(vals) + rng.choice([0, 0, 1, -1]) for _ in range(c)])
+    elif k < 0.79 and c < hi:  # one more column
+        at = rng.randint(0, c)
+        for row in m:
+            row.insert(at, rng.choice(vals) + rng.choice([0, 0, 1, -1]))
+    elif k < 0.87 and r > 1:
+        del m[rng.randrange(r)]
+    elif k < 0.95 and c > 1:
+        at = rng.randrange(c)
+        for row in m:
+            del row[at]
+    else:  # the other way round
+        m = [list(col) for col in zip(*m)]
+    return m
 
 
 def rand_shape(rng, hi):
@@ -578,17 +739,67 @@ def history_stream(rng, pattern, hi):
             ops.append(solve_op(rng, r, c, fam, "min"))
             rr, cc = rng.choice(shapes)
             ops.append(solve_op(rng, rr, cc, rng.choice(LOUD), rng.choice(["min", "max"])))
+    elif pattern == "edit":  # ONE matrix object, edited in place between the calls (run_stream: shared == "one")
+        r, c = rng.choice(shapes)
+        m = gen_matrix(rng, r, c, rng.choice(FAMILIES))
+        for _ in range(rng.randint(8, 20)):
+            ops.append(["solve", m, rng.choice(["min", "max", "default"]), "list"])
+            if rng.random() < 0.85:
+                m = edit_matrix(rng, m, hi + 1)
     else:
         raise ValueError(pattern)
     for k in range(len(ops) - 1, -1, -1):
         if rng.random() < 0.1:
             m = ops[k][1]
             ops.insert(k + 1, ["ac", m, rand_assignment(rng, len(m), len(m[0]))])
-    return {"kind": "list", "ops": ops, "shared": rng.random() < 0.3, "pattern": pattern}
+    shared = "one" if pattern == "edit" or rng.random() < 0.1 else rng.random() < 0.3
+    return {"kind": "list", "ops": ops, "shared": shared, "pattern": pattern}
 
 
-PATTERNS = ["stale-padding", "tall-wide", "same-n", "many-sizes", "repeat", "flip-mode"]
-MAKERS = {"random": random_stream, "big": big_stream, "history": history_stream}
+LADDER_FAMS = ["pos100", "pos100", "small", "binary", "ternary", "neg", "poslarge", "neglarge", "dyadic8", "rowscale", "colscale",
+               "product", "sparsebig", "diagtrap", "planted", "plantedties", "lexi36", "tiny40", "additive", "duprows", "dupcols",
+               "offset"]
+LADDER_CHEAP = ["pos100", "small", "neg", "poslarge", "dyadic8", "planted", "lexi36", "sparsebig"]  # short augmenting paths
+
+
+def ladder_shape(rng, n):
+    k = rng.random()
+    if k < 0.4:
+        return n, n
+    m = max(1, n - rng.choice([1, 2, 3, 5, n // 4, n // 2]))
+    return (m, n) if rng.random() < 0.5 else (n, m)
+
+
+def ladder_stream(rng, sizes, modes, fams):
+    """For every size n: one fresh matrix per mode with max(rows, cols) == n."""
+    ops = []
+    for n in sizes:
+        order = list(modes)
+        rng.shuffle(order)
+        for mode in order:
+            r, c = ladder_shape(rng, n)
+            fam = rng.choice(LADDER_FAMS if fams == "all" else LADDER_CHEAP)
+            ops.append(["solve", gen_matrix(rng, r, c, fam), mode, "list", fam])
+    return {"kind": "list", "ops": ops, "shared": False}
+
+
+def ladder_history(rng, n):
+    """Calls that share the padded size n >= 128 while the shape, the direction and the contents change; in most
+    streams through one caller-side object."""
+    loud = ["poslarge", "neglarge", "rowscale", "colscale", "pos100", "neg", "offset"]
+    k1, k2 = rng.choice([1, 2, 3, n // 3]), rng.choice([1, 2, 5, n // 2])
+    a = gen_matrix(rng, n, n, rng.choice(loud))
+    ops = [["solve", a, rng.choice(["min", "max"]), "list", "history"],
+           ["solve", gen_matrix(rng, n - k1, n, rng.choice(loud + ["small", "lexi36"])), "min", "list", "history"],
+           ["solve", gen_matrix(rng, n, n - k2, rng.choice(loud + ["small", "planted"])), rng.choice(["min", "max"]), "list", "history"],
+           ["solve", a, "max", "list", "history"],
+           ["solve", a, "min", "list", "history"]]
+    return {"kind": "list", "ops": ops, "shared": rng.choice([False, True, "one", "one"]), "pattern": "ladder-history"}
+
+
+PATTERNS = ["stale-padding", "tall-wide", "same-n", "many-sizes", "repeat", "flip-mode", "edit"]
+MAKERS = {"random": random_stream, "big": big_stream, "history": history_stream, "ladder": ladder_stream,
+          "ladder-history": ladder_history}
 
 
 def gen(rng, maker, *args):
@@ -775,16 +986,20 @@ def replay(rec) -> int:
     case = rec.get("case") or {}
     if "spec" in case:
         spec = expand(case["spec"])
-        ops = materialize(spec, spec["upto"])
+        only = spec.get("only")
+        ops = materialize(spec, spec["upto"] if only is None else only + 1)
     else:
+        only = None
         ops = case["ops"]
-        spec = {"kind": "list", "ops": ops, "shared": bool(case.get("shared"))}
+        spec = {"kind": "list", "ops": ops, "shared": case.get("shared") or False}
     out = run_stream(spec)
     for i, op in enumerate(ops):
         v = [(o, d) for k, o, d in out["viol"] if k == i]
-        if len(ops) > 12 and not v and i < len(ops) - 1:
+        if (only is not None and i != only) or (len(ops) > 12 and not v and i < len(ops) - 1):
             continue
-        what = f"solve_hungarian({op[1]}, {op[2]})" if op[0] == "solve" else f"assignment_cost({op[1]}, {op[2]})"
+        m = op[1]
+        shown = str(m) if len(m) * (len(m[0]) if m else 0) <= 100 else f"<{len(m)}x{len(m[0])} matrix, first row {m[0][:6]}...>"
+        what = f"solve_hungarian({shown}, {op[2]})" if op[0] == "solve" else f"assignment_cost({shown}, {op[2]})"
         print(f"call {i}: {what[:300]} -> {'VIOLATES ' + '; '.join(o + ': ' + d for o, d in v) if v else 'contract holds'}")
     print("replay:", "still violates" if out["viol"] else "no violation")
     return 1 if out["viol"] else 0
